@@ -114,6 +114,9 @@ func genC10Plain(r *rand.Rand, role string, udp bool) c10Seg {
 		if udp && r.Intn(4) == 0 {
 			s.From = "fresh"
 		}
+		if udp && r.Intn(12) == 0 {
+			s.From = "port0"
+		}
 	} else {
 		s.KeyUser = "alice"
 	}
@@ -332,7 +335,13 @@ func (k *c10Case) modelSteps() (steps []string, nSetup int) {
 			if s.From == "fresh" {
 				src = 2
 			}
+			if s.From == "port0" {
+				src = 3
+			}
 			line = fmt.Sprintf("0,1,0,0,0,0,0,0,0,0,%d,0,1,0,%d,1,%d,-,0,0", s.Len, src, s.Len)
+			if s.From == "port0" {
+				line += ",0,1"
+			}
 		case "replay":
 			line = prev
 			f := strings.Split(prev, ",")
@@ -350,6 +359,9 @@ func (k *c10Case) modelSteps() (steps []string, nSetup int) {
 			if s.From == "fresh" {
 				src = 2
 			}
+			if s.From == "port0" {
+				src = 3
+			}
 			key := s.KeyUser
 			if k.Role == "client" && key != "alice" {
 				key = "-" // the client holds one key; anything else does not authenticate
@@ -365,6 +377,9 @@ func (k *c10Case) modelSteps() (steps []string, nSetup int) {
 			line = fmt.Sprintf("%d,%d,%d,%d,%d,%d,%d,%d,%d,%d,%d,%d,%d,%d,%d,1,%d,%s,0,%s",
 				s.Proto, b01(ts), k.modelSid(s), l.declPre, l.declPay, l.declSuf, s.Byte1, s.LEMask, s.LERot, l.extLen,
 				l.tailLen, b01(l.auth), b01(l.leBodyOk), b01(l.framed), src, 72+l.tailLen, key, seq)
+			if s.From == "port0" {
+				line += ",0,1" // replyWriteOk = 0: the socket cannot send to this datagram's source
+			}
 		}
 		prev = line
 		steps = append(steps, line)
@@ -412,6 +427,7 @@ func c10Predict(c *core.Ctx, k *c10Case) (c10Prediction, int, error) {
 }
 
 func c10Class(tok string) (outcome string, reply bool) {
+	tok = strings.TrimSuffix(tok, "+replyfailed") // the close request was attempted and could not be sent: nothing to see
 	reply = strings.HasSuffix(tok, "+reply")
 	tok = strings.TrimSuffix(tok, "+reply")
 	if i := strings.Index(tok, "/"); i >= 0 {
@@ -644,6 +660,9 @@ func c10Judge(c *core.Ctx, k c10Case, pred c10Prediction, nSetup int, res c10Res
 		if s.Kind == "seg" {
 			c.Hist("proto", fmt.Sprint(s.Proto))
 			c.Hist("sid_sel", s.SidSel)
+			if k.UDP && k.Role == "server" {
+				c.Hist("udp_source", s.From+"->"+pred.Tokens[nSetup+i])
+			}
 			if c10IsData(s.Proto) || s.Proto == 2 || s.Proto == 3 {
 				// in-sequence ("next") and out-of-sequence (literal) segments for inputData, per transport
 				tr := "tcp"
@@ -1054,6 +1073,22 @@ func c10SweepCases(c *core.Ctx) []c10Case {
 			k.Steps = []c10Seg{plainType(p, []string{"own1", "victim"}[p%2], role)}
 			out = append(out, k)
 		}
+	}
+	// EVERY run: a source address the server's socket cannot SEND to (source port 0: the kernel delivers such a
+	// datagram and refuses the reply with EINVAL). A data / ack segment of a registered user that names an unknown
+	// session makes the server answer with a close request; that write fails. The ONE listener all users share
+	// must survive it (audit A §C10: the event loop used to `return`, closing the socket) — the other user's
+	// session is probed after every arrival. Also: session types, the other user's id, garbage from that address.
+	for i, p := range []int{6, 8, 10, 7, 9, 4, 2, 200} {
+		k := c10Case{Role: "server", UDP: true, Seed: c.Rand.Int63(), Setup: 2}
+		k.Own1 = 1 + c.Rand.Uint32()%2000000000
+		k.Own2 = 2000000001 + c.Rand.Uint32()%1000000000
+		g := plainType(p, "value", "server")
+		g.Sid, g.SeqSel, g.From = 0x7a000000+uint32(i), "value", "port0"
+		v := plainType(8, "victim", "server")
+		v.SeqSel, v.From = "value", "port0"
+		k.Steps = []c10Seg{g, v, {Kind: "garbage", Len: 100, From: "port0", ExtLen: -1, DeclPre: -1, DeclPay: -1, DeclSuf: -1}, plainType(8, "own1", "server")}
+		out = append(out, k)
 	}
 	// TCP: every garbage arrival ends the connection, so one arrival per case
 	tl := []int{1, 23, 24, 47, 48, 71, 72, 73, 2000}
